@@ -114,7 +114,7 @@ func main() {
 		SolverArgv: []string{"z3", "-in"}, SolverName: "z3 4.8.12 (second opinion on unknown: z3 5.1.0)", SolverTimeoutMs: timeout,
 		SecondSolverArgv: []string{"z3-new", "-in"},
 		InitPkgs:         map[string]bool{"strconv": true, "unicode/utf8": true, "math": true, "math/bits": true, "unicode": true, "sort": true, "bytes": true, "io": true},
-		LenientPkgs:      map[string]bool{},
+		LenientPkgs:      map[string]bool{"time": true, "errors": true},
 		Trace:            *trace, SessionPaths: 150, LogDir: *logdir, Thorough: thorough,
 	}
 	for _, p := range cfg.Lenient {
@@ -220,6 +220,9 @@ func main() {
 			opts.Deadline = time.Now().Add(time.Duration(budget) * time.Second)
 			sum := eng.Explore(h.fn, ws, opts)
 			hr := &harnessReport{Name: n, Rel: h.rel, Stage: st.Name, Sum: sum, Subst: substNotes}
+			if os.Getenv("GSX_OBSERVE") != "" {
+				fmt.Fprintf(os.Stderr, "  observes: %v\n", sum.LastObserves)
+			}
 			rep.Harnesses = append(rep.Harnesses, hr)
 			fmt.Fprintf(os.Stderr, "[%s] %s: paths=%d outcomes=%v discharged=%d/%d findings=%d unknown=%d incomplete=%d unsupported=%d %.1fs\n",
 				st.Name, n, sum.Paths, sum.Outcomes, total(sum.AssertsOK), total(sum.AssertsSeen), len(sum.Findings), len(sum.Unknown), len(sum.Incomplete), len(sum.Unsupported), sum.WallS)
